@@ -7,7 +7,6 @@ import (
 	"encoding/json"
 	"fmt"
 	"hash/fnv"
-	"os"
 	"sort"
 	"strings"
 	"testing"
@@ -783,7 +782,7 @@ func TestVerifC20(t *testing.T) {
 		defLayers[i] = c20LayerOf(defFlats[i])
 	}
 
-	n := h.N(1200, 25000)
+	n := h.N(3000, 40000)
 	for idx := 0; idx < n; idx++ {
 		r := h.Begin(idx)
 		if r == nil {
@@ -982,9 +981,6 @@ func TestVerifC20(t *testing.T) {
 					}
 					secBroken[s] = true
 					difs := c20Diffs(obs, exp)
-					if os.Getenv("C20_DEBUG") != "" {
-						fmt.Printf("DEBUG case %d sec %d text=%s\nraw cluster=%s\nexp=%v\nobs=%v\n", idx, s, g.sec.text, c20Marshal(g.sec.cluster), exp, obs)
-					}
 					whereOf := func(d c20Dif) string {
 						return fmt.Sprintf("section %s field %s: %s (event %d, labels %v)", c20SecNames[s], c20PathNames(d.p), d.what, ev, node.Labels)
 					}
@@ -994,14 +990,15 @@ func TestVerifC20(t *testing.T) {
 						fail("C20:absent-not-default:"+c20SecNames[s], "absent section is not the built-in default; %s", where)
 					default:
 						cls := ""
-						for _, alt := range append([]int{-1}, c20Range(len(g.sec.nodes))...) {
+						for _, alt := range matching { // what a later matching entry would give
 							if alt != first && c20LayerEq(obs, expectWith(alt)) {
-								if alt >= 0 && c20SelMatches(g.sec.nodes[alt].sel, labels) {
-									cls = "C20:first-match:" + c20SecNames[s]
-								} else {
-									cls = "C20:wrong-entry:" + c20SecNames[s]
-								}
+								cls = "C20:first-match:" + c20SecNames[s]
 								break
+							}
+						}
+						for _, alt := range append([]int{-1}, c20Range(len(g.sec.nodes))...) {
+							if cls == "" && alt != first && c20LayerEq(obs, expectWith(alt)) {
+								cls = "C20:wrong-entry:" + c20SecNames[s]
 							}
 						}
 						if cls != "" {
